@@ -18,7 +18,7 @@ func init() {
 
 func runC15(c *Ctx, r *Report) {
 	p := c.P
-	it := p.Func("", "IPFSLog", "Iterator")
+	it := p.FuncI("", "IPFSLog", "Iterator")
 	r.Doc("R-C15.1", "amount-tainted slice/index bounds in Iterator proved in range for all values")
 	r.Doc("R-C15.2", "close(output) on every path to a success return")
 	r.Doc("R-C15.3", "a failed lookup of a bound hash only reaches error returns")
@@ -74,7 +74,7 @@ func runC15(c *Ctx, r *Report) {
 
 	// R-C15.3 (over Iterator and its literals: the locked part may live in a closure)
 	nLookups := 0
-	for _, fx := range AllFnsUnder(it) {
+	for _, fx := range p.AllViews(it) {
 	okVars := map[types.Object]*ast.CallExpr{}
 	walkNoLit(fx.Body, func(n ast.Node) bool {
 		as, ok := n.(*ast.AssignStmt)
@@ -110,13 +110,16 @@ func runC15(c *Ctx, r *Report) {
 				}
 			}
 		}
+		errCorr{p, fx, "failed|"}.edge(cond, taken, f)
 	}
+	ec := errCorr{p, fx, "failed|"}
 	mf.Node = func(n ast.Node, f Facts) {
 		for _, id := range assignedIdents(n) {
 			if o := p.ObjOf(fx, id); o != nil {
 				delete(f, "failed|"+p.ID(o))
 			}
 		}
+		ec.node(n, f)
 	}
 	mf.Run()
 	bad := map[types.Object]string{}
@@ -160,7 +163,7 @@ func runC15(c *Ctx, r *Report) {
 	headsField := p.Field("", "IPFSLog", "heads")
 	ltF, lteF := p.Field("iface", "IteratorOptions", "LT"), p.Field("iface", "IteratorOptions", "LTE")
 	nhs := 0
-	for _, fx := range AllFnsUnder(it) {
+	for _, fx := range p.AllViews(it) {
 	bf := &Flow{P: p, Fn: fx, May: true, Entry: Facts{}}
 	bf.Edge = func(cond ast.Expr, taken bool, f Facts) {
 		for _, a := range splitCond(cond, taken) {
@@ -214,7 +217,7 @@ func runC15(c *Ctx, r *Report) {
 	// R-C15.4
 	le := repoLockEngine(c)
 	nsend := 0
-	if lf := le.flows[it]; lf != nil {
+	if lf := le.flows[orig(it)]; lf != nil {
 		lf.Visit(func(_ *cfgBlk, n ast.Node, before Facts) {
 			walkNoLit(n, func(nd ast.Node) bool {
 				if s, ok := nd.(*ast.SendStmt); ok {
